@@ -275,6 +275,7 @@ def work(a):
                 treegen.emit_packfile(ents, cd)
                 treegen.emit_xattr_file(ents, cd)
             else:
+                treegen.host_materialisable(ents)
                 try:
                     treegen.emit_dir(ents, os.path.join(cd, "tree"))
                 except OSError as e:
